@@ -107,6 +107,19 @@ impl IpDefragBuf {
             }
         }
 
+        // check that the end does not conflict with already received data
+        // (an end set in front of data that was received earlier)
+        if false == more_fragments {
+            if let Some(received_end) = self.sections.iter().map(|s| s.end).max() {
+                if received_end > end {
+                    return Err(ConflictingEnd {
+                        previous_end: received_end,
+                        conflicting_end: end,
+                    });
+                }
+            }
+        }
+
         // get enough memory to store the de-fragmented
         let required_len = usize::from(end);
         if self.data.len() < required_len {
